@@ -162,9 +162,9 @@ Proof. vm_compute. repeat split. Qed.
    #[serde(tag = "kind", rename_all = "kebab-case")] enum E { UnitVar, NewVar(Inner) } *)
 Definition ex_U : universe :=
   [ RdStruct (s "Inner") RuCamel true false
-      [ mkRField (s "first_name") RtString None false false;
-        mkRField (s "opt_level") (RtOption (RtInt (s "u8"))) None false true;
-        mkRField (s "tags") (RtVec RtString) None true false ];
+      [ mkRField (s "first_name") RtString None false false None;
+        mkRField (s "opt_level") (RtOption (RtInt (s "u8"))) None false true None;
+        mkRField (s "tags") (RtVec RtString) None true false None ];
     RdEnum (s "E") (TagInternal (s "kind")) RuKebab false
       [ mkRVariant (s "UnitVar") None RvUnit;
         mkRVariant (s "NewVar") None (RvNewtype (RtRef (s "Inner"))) ] ].
@@ -211,7 +211,7 @@ Proof. intros T t fuel j. reflexivity. Qed.
 Definition known4_U : universe :=
   [ RdEnum (s "Command") (TagInternal (s "type")) RuNone false
       [ mkRVariant (s "Branch") None RvUnit;
-        mkRVariant (s "Leaf") None (RvStruct RuNone [ mkRField (s "right") RtUnit None false false ]) ] ].
+        mkRVariant (s "Leaf") None (RvStruct RuNone [ mkRField (s "right") RtUnit None false false None ]) ] ].
 
 Definition known4_T' : space :=
   mkSpace [(1, mkEntry (DEnum (s "Command") None (TagAdjacent (s "type") (s "right"))
